@@ -37,6 +37,9 @@ def run(ctx):
     jobs.append({"part": "bnhash", "mode": "plain", "maxlen": 30, "nrandom": 0, "shard": 30})
     jobs.append({"part": "tovec", "mode": "native", "nrandom": 400 if thorough else 120, "shard": 40})
     jobs.append({"part": "tovec", "mode": "plain", "nrandom": 40, "shard": 41})
+    # compiled with gnark's real builders (R1CS, SCS) on witness inputs: linear-expression aliasing exists only there
+    for i in range(3 if thorough else 1):
+        jobs.append({"part": "bnreal", "mode": "plain", "shard": 50 + i})
 
     def one(j):
         rq = dict(files)
